@@ -691,6 +691,20 @@ func c18IDScopes(c *Ctx) {
 			wire.M("properties", wire.ObjV(wire.M("n", ref))))
 		defs := wire.ObjV(wire.M(name, wire.ObjV(wire.M("type", wire.StrV("string")), wire.M("description", wire.StrV("in the enclosing document")))),
 			wire.M("scoped", scoped), wire.M("user", wire.ObjV(wire.M("type", wire.StrV("object")), wire.M("properties", wire.ObjV(wire.M("u", ref))))))
+		if i%3 == 0 {
+			// a sibling schema that declares the SAME id with other local definitions: each scope is its own
+			defs = defs.Set("scopedTwin", wire.ObjV(wire.M("id", wire.StrV(id)), wire.M("type", wire.StrV("object")),
+				wire.M("definitions", wire.ObjV(wire.M(name, wire.ObjV(wire.M("type", wire.StrV("boolean")), wire.M("description", wire.StrV("inside the second scope of the same id")))))),
+				wire.M("properties", wire.ObjV(wire.M("n", ref)))))
+		}
+		if i%3 == 1 && i%2 == 0 {
+			// a schema with an id on a cycle through another definition (reached back through the root's URL), with a
+			// local $ref inside its scope: how far it unfolds depends on where the expansion starts, never on the cache
+			defs = defs.Set("Folder", wire.ObjV(wire.M("id", wire.StrV(id+"/folder")), wire.M("type", wire.StrV("object")),
+				wire.M("definitions", wire.ObjV(wire.M(name, wire.ObjV(wire.M("type", wire.StrV("object")), wire.M("properties", wire.ObjV(wire.M("owner", wire.ObjV(wire.M("$ref", wire.StrV(rootURL+"#/definitions/Account")))))))))),
+				wire.M("properties", wire.ObjV(wire.M("first", ref), wire.M("owner", wire.ObjV(wire.M("$ref", wire.StrV(rootURL+"#/definitions/Account"))))))))
+			defs = defs.Set("Account", wire.ObjV(wire.M("type", wire.StrV("object")), wire.M("properties", wire.ObjV(wire.M("home", wire.ObjV(wire.M("$ref", wire.StrV("#/definitions/Folder"))))))))
+		}
 		w := &refgraph.World{Root: rootURL, Docs: map[string]wire.V{rootURL: wire.ObjV(wire.M("swagger", wire.StrV("2.0")),
 			wire.M("info", wire.ObjV(wire.M("title", wire.StrV("t")), wire.M("version", wire.StrV("1")))), wire.M("paths", wire.ObjV()), wire.M("definitions", defs))}}
 		otherURL := ""
